@@ -164,6 +164,11 @@ Proof.
   apply HA. rewrite EAB. exact HB.
 Qed.
 
+Lemma node_move_S f h from d :
+  node_move (S f) h from (Some d) =
+  (do src0 <- from_get h from; move_loop (rec_of f) (S f) d (S f) h from src0 d 0).
+Proof. reflexivity. Qed.
+
 (* ---------------------------------------------------------------- OMove *)
 Lemma step_move p d : refines_step (OMove p d).
 Proof.
@@ -234,8 +239,8 @@ Proof.
   (* the two-zipper state *)
   set (fs := Fr a p n v b :: fp).
   assert (Est2 : Permutation (lists s) (st2 fs fd rest kp (td :: l2))).
-  { etransitivity; [exact Pst|]. unfold st2, plug, fs. cbn [fst snd fold_left plugf fl1 fi fn fv fl2].
-    rewrite <- Elp. apply perm_skip. destruct (focus_perm _ _ _ _ _ _ _ FD) as [Pd _]. exact Pd. }
+  { etransitivity; [exact Pst|]. unfold st2, plug, fs. cbn [fst snd fold_left]. unfold plugf at 2.
+    cbn [fl1 fi fn fv fl2]. rewrite <- Elp. apply perm_skip. destruct (focus_perm _ _ _ _ _ _ _ FD) as [Pd _]. exact Pd. }
   pose proof (rep_st_perm _ _ _ Est2 (i_rep _ _ I)) as R2.
   assert (ND2 : NoDup (ids_st (st2 fs fd rest kp (td :: l2)))).
   { eapply Permutation_NoDup; [apply ids_st_perm; exact Est2|exact ND]. }
@@ -253,19 +258,99 @@ Proof.
   - cbn [app]. lia.
   - rewrite fsize_ids. pose proof (Permutation_length (st2_ids fs fd rest kp (td :: l2))) as L.
     rewrite !app_length in L. cbn [app] in Ln2. lia.
-  - unfold fuel_of. cbn [node_move from_get].
+  - unfold fuel_of. rewrite node_move_S. cbn [from_get].
     destruct (st2_facts_list h fs fd rest kp (td :: l2) R2) as (Rfs & _).
     unfold fs in Rfs. cbn [rep_frames fl1 fi fn fv fl2] in Rfs. destruct Rfs as (_ & Hcp & _).
     rewrite (fld_ok _ _ _ _ Hcp). cbn [rbind nkid].
-    change (fun (h0 : heap) (s0 : nat) (ck : ptr) =>
-              do '(h1, _, m) <- node_move (S (nextid h)) h0 (FromKids s0) ck; ROk (h1, m)) with (rec_of (S (nextid h))).
     cbn [app] in E'. rewrite E'. cbn [rbind Nat.add].
     destruct (move_l kp (td :: l2)) as [[k' d'] m] eqn:Eml. cbn [fst snd] in *.
     exists h'. split; [reflexivity|].
     destruct S' as [M' R' P' F'].
     apply (inv_relink _ _ _ _ I M').
     + exact R'.
-    + rewrite P'. symmetry. apply ids_st_perm. exact Est2.
+    + etransitivity; [exact P'|]. symmetry. apply ids_st_perm. exact Est2.
+    + intros i Hi. apply F'. intros K. apply Hi.
+      eapply Permutation_in; [symmetry; apply ids_st_perm; exact Est2|exact K].
+Qed.
+
+(* ---------------------------------------------------------------- OLMove *)
+Lemma step_lmove x d : refines_step (OLMove x d).
+Proof.
+  intros h s I. cbn [mstep sstep]. rewrite (unlinked_iff _ _ _ I), (live_iff _ _ _ I).
+  pose proof (inv_nodup _ _ I) as ND.
+  destruct (take_single x (lists s)) as [[tx st1]|] eqn:TS; [|cbn [andb fst snd]; eexists; split; [reflexivity|exact I]].
+  cbn [andb].
+  pose proof (take_single_inv _ _ _ _ TS) as FX.
+  destruct (focus_in_list _ _ _ _ _ _ _ FX) as (q1 & q2 & Est & Est1 & Hx). cbn [fold_left app] in Est, Hx.
+  destruct (take_single_perm _ _ _ _ TS) as [Pst Etx].
+  pose proof (rep_st_perm _ _ _ Pst (i_rep _ _ I)) as R0. rewrite rep_st_cons in R0. destruct R0 as [Rtx Rst1].
+  assert (Hhx : hid [tx] = Some x) by (cbn; rewrite Etx; reflexivity).
+  destruct (focus d st1) as [[[[[fd rest] l1] td] l2]|] eqn:FD.
+  2:{ destruct (slive s d) eqn:Sld; [|cbn [andb fst snd]; eexists; split; [reflexivity|exact I]].
+      cbn [andb]. destruct (is_head h d); [|cbn [fst snd]; eexists; split; [reflexivity|exact I]].
+      apply mem_in in Sld.
+      assert (Hd : In d (ids_f [tx])).
+      { eapply Permutation_in in Sld; [|apply ids_st_perm; exact Pst]. rewrite ids_st_cons in Sld.
+        apply in_app_or in Sld. destruct Sld as [K|K]; [exact K|]. exfalso. exact (focus_st_none _ _ _ FD K). }
+      rewrite (tophead_of_list h s d q1 [tx] q2 I Est Hd), Hhx. cbn [rbind]. rewrite Nat.eqb_refl.
+      cbn [fst snd]. eexists; split; [reflexivity|exact I]. }
+  destruct (focus_in_list _ _ _ _ _ _ _ FD) as (r1 & r2 & Er0 & Erest' & Hd).
+  set (Ld := fold_left plugf fd (l1 ++ td :: l2)) in *.
+  assert (Hdin : In d (ids_st (lists s))).
+  { eapply Permutation_in; [symmetry; apply ids_st_perm; exact Pst|]. rewrite ids_st_cons. apply in_or_app. right.
+    rewrite Er0, ids_st_app, ids_st_cons. apply in_or_app. right. apply in_or_app. auto. }
+  assert (Sld : slive s d = true) by (apply mem_in; exact Hdin).
+  rewrite Sld. cbn [andb].
+  destruct (focus_cell _ _ _ _ _ _ _ _ Rst1 FD) as [Hcd Rd].
+  assert (Hhd : is_head h d = match l1 with [] => true | _ :: _ => false end).
+  { unfold is_head. rewrite Hcd. cbn [nprev]. destruct (lastid l1 None) eqn:E.
+    - destruct l1; [discriminate|reflexivity].
+    - apply lastid_nil_inv in E. subst. reflexivity. }
+  rewrite Hhd. destruct l1 as [|t1 r1']; [|cbn [fst snd]; eexists; split; [reflexivity|exact I]].
+  cbn [app] in *.
+  assert (NdA : ~ In d (ids_f [tx])).
+  { intros K. eapply Permutation_NoDup in ND; [|apply ids_st_perm; exact Pst]. rewrite ids_st_cons in ND.
+    apply NoDup_app_inv in ND. destruct ND as (_ & _ & Dj). apply (Dj d K).
+    rewrite Er0, ids_st_app, ids_st_cons. apply in_or_app. right. apply in_or_app. auto. }
+  assert (ELd : exists t1' t2', lists s = t1' ++ Ld :: t2').
+  { assert (InL : In Ld (lists s)).
+    { rewrite Est. rewrite Est1 in Er0.
+      assert (K : In Ld (q1 ++ q2)) by (rewrite Er0; apply in_or_app; right; left; reflexivity).
+      apply in_app_or in K. apply in_or_app. destruct K; [left|right; right]; assumption. }
+    apply in_split in InL. exact InL. }
+  destruct ELd as (t1' & t2' & ELd).
+  rewrite (tophead_of_list h s d t1' Ld t2' I ELd Hd). cbn [rbind].
+  pose proof (heads_differ (lists s) q1 [tx] q2 t1' Ld t2' d ND Est ELd Hd NdA ltac:(discriminate)) as Hdf.
+  rewrite Hhx in Hdf. rewrite (proj2 (Nat.eqb_neq _ _) Hdf).
+  (* the two-zipper state: the source is the top-level list [tx] *)
+  assert (Est2 : Permutation (lists s) (st2 [] fd rest [tx] (td :: l2))).
+  { etransitivity; [exact Pst|]. unfold st2, plug. cbn [fst snd fold_left].
+    apply perm_skip. destruct (focus_perm _ _ _ _ _ _ _ FD) as [Pd _]. exact Pd. }
+  pose proof (rep_st_perm _ _ _ Est2 (i_rep _ _ I)) as R2.
+  assert (ND2 : NoDup (ids_st (st2 [] fd rest [tx] (td :: l2)))).
+  { eapply Permutation_NoDup; [apply ids_st_perm; exact Est2|exact ND]. }
+  assert (Ln2 : length (ids_st (st2 [] fd rest [tx] (td :: l2))) <= nextid h).
+  { rewrite <- (Permutation_length (ids_st_perm _ _ Est2)). exact (inv_length _ _ I). }
+  destruct (focus_perm _ _ _ _ _ _ _ FD) as [_ Etd].
+  destruct (loop_all [tx] h [] fd rest [] (td :: l2) (FromLocal (Some x)) d d 0 (S (nextid h)) (S (S (nextid h))))
+    as (h' & from' & E' & S' & _).
+  - exact R2.
+  - exact ND2.
+  - exact Ln2.
+  - cbn [hid]. rewrite Etd. reflexivity.
+  - exists 0, td. split; [reflexivity|exact Etd].
+  - cbn [from_ok app]. split; [reflexivity|]. symmetry. exact Hhx.
+  - cbn [app length]. lia.
+  - rewrite fsize_ids. pose proof (Permutation_length (st2_ids [] fd rest [tx] (td :: l2))) as L.
+    rewrite !app_length in L. cbn [app] in Ln2. lia.
+  - unfold fuel_of. rewrite node_move_S. cbn [from_get rbind].
+    cbn [app] in E'. rewrite Hhx in E'. rewrite E'. cbn [rbind Nat.add].
+    destruct (move_l [tx] (td :: l2)) as [[k' d'] m] eqn:Eml. cbn [fst snd] in *.
+    exists h'. split; [reflexivity|].
+    destruct S' as [M' R' P' F'].
+    apply (inv_relink _ _ _ _ I M').
+    + exact R'.
+    + etransitivity; [exact P'|]. symmetry. apply ids_st_perm. exact Est2.
     + intros i Hi. apply F'. intros K. apply Hi.
       eapply Permutation_in; [symmetry; apply ids_st_perm; exact Est2|exact K].
 Qed.
